@@ -138,7 +138,48 @@ pub fn replay_net(case: &Value, rep: &mut Report) {
                 rep.mismatch("C08", "valid_layer_rejected", &id, json!({"step": i, "kind": kind, "panic": e}), case);
                 return;
             }
-            (Err(_), _) => continue,
+            (Err(_), _) => {
+                // the same refusal through the other entry points: a spatial layer on a flat size that is not a perfect
+                // square must be refused by the stand-alone constructor and inside a feedback block as well
+                let prev_flat = net.layers.last().map(|l| matches!(l, neurons::network::Layer::Dense(_))).unwrap_or(input.len() == 1);
+                if kind != "dense" && prev_flat {
+                    let n_flat: usize = if net.layers.is_empty() {
+                        input.iter().product()
+                    } else {
+                        announced(&net, net.layers.len() - 1).map(|a| a.1.iter().product()).unwrap_or(0)
+                    };
+                    let root = (n_flat as f64).sqrt().round() as usize;
+                    if n_flat > 0 && root * root != n_flat {
+                        use neurons::tensor::Shape;
+                        let hp = &step["hp"];
+                        let u = |k: &str| hp[k].as_u64().unwrap() as usize;
+                        let act = crate::layers::activation(hp["act"].as_str().unwrap_or("linear"));
+                        rep.checks += 2;
+                        let direct = guarded(|| match kind {
+                            "conv" => {
+                                neurons::convolution::Convolution::create(Shape::Single(n_flat), u("f"), &act, (u("kh"), u("kw")), (u("sh"), u("sw")), (u("ph"), u("pw")), (u("dh"), u("dw")), None);
+                            }
+                            "deconv" => {
+                                neurons::deconvolution::Deconvolution::create(Shape::Single(n_flat), u("f"), &act, (u("kh"), u("kw")), (u("sh"), u("sw")), (u("ph"), u("pw")), None);
+                            }
+                            _ => {
+                                neurons::maxpool::Maxpool::create(Shape::Single(n_flat), (u("kh"), u("kw")), (u("sh"), u("sw")));
+                            }
+                        });
+                        if direct.is_ok() {
+                            rep.mismatch("C08", "flat_size_not_rejected_by_stand_alone_constructor", &id, json!({"step": i, "kind": kind, "flat": n_flat}), case);
+                        }
+                        let in_block = guarded(|| {
+                            let mut n2 = Network::new(Shape::Single(n_flat));
+                            nets::add_layer(&mut n2, &json!({"kind": "feedback", "layers": [desc.clone()], "loops": 1, "inskips": false, "outskips": false, "acc": "mean"}));
+                        });
+                        if in_block.is_ok() {
+                            rep.mismatch("C08", "flat_size_not_rejected_inside_feedback_block", &id, json!({"step": i, "kind": kind, "flat": n_flat}), case);
+                        }
+                    }
+                }
+                continue;
+            }
             (Ok(()), _) => (),
         }
         // announced shapes
